@@ -336,11 +336,14 @@ class X12Reader(X12Base):
         X12Base._parse_segment(self, seg_data)
         seg_id = seg_data.get_seg_id()
         if seg_id == 'IEA':
-            if self.loops[-1][0] != 'ISA':
-                # Unterminated GS loop
+            while self.loops and self.loops[-1][0] != 'ISA':
+                # Unterminated GS or ST loop
                 err_str = 'Unterminated Loop {}'.format(self.loops[-1][0])
                 self._isa_error('024', err_str)
                 del self.loops[-1]
+            if not self.loops:
+                self._isa_error('024', 'IEA segment found without a matching ISA')
+                return
             if self.loops[-1][1] != seg_data.get_value('IEA02'):
                 err_str = 'IEA id={} does not match ISA id={}'.format(\
                     seg_data.get_value('IEA02'), self.loops[-1][1])
@@ -351,10 +354,13 @@ class X12Reader(X12Base):
                 self._isa_error('021', err_str)
             del self.loops[-1]
         elif seg_id == 'GE':
-            if self.loops[-1][0] != 'GS':
+            if self.loops and self.loops[-1][0] == 'ST':
                 err_str = 'Unterminated segment {}'.format(self.loops[-1][1])
                 self._gs_error('3', err_str)
                 del self.loops[-1]
+            if not self.loops or self.loops[-1][0] != 'GS':
+                self._isa_error('024', 'GE segment found without a matching GS')
+                return
             if self.loops[-1][1] != seg_data.get_value('GE02'):
                 err_str = 'GE id={} does not match GS id={}'.format(\
                     seg_data.get_value('GE02'), self.loops[-1][1])
@@ -368,8 +374,10 @@ class X12Reader(X12Base):
             del self.loops[-1]
         elif seg_id == 'SE':
             se_trn_control_num = seg_data.get_value('SE02')
-            if self.loops[-1][0] != 'ST' or \
-                    self.loops[-1][1] != se_trn_control_num:
+            if not self.loops or self.loops[-1][0] != 'ST':
+                self._isa_error('024', 'SE segment found without a matching ST')
+                return
+            if self.loops[-1][1] != se_trn_control_num:
                 err_str = 'SE id={} does not match ST id={}'.format(\
                     se_trn_control_num, self.loops[-1][1])
                 self._st_error('3', err_str)
